@@ -16,10 +16,14 @@ import (
 type callKind struct {
 	Method string `json:"m"` // full method string; for the registered interface t.a the method name is the handler script
 	Flags  string `json:"f"` // "", "oneway", "more", "upgrade", "more+oneway"
+	P      string `json:"p,omitempty"` // raw JSON of the "parameters" member ("" = member absent); only the built-in GetInterfaceDescription reads it
 }
 
 func (k callKind) frame() string {
 	m := map[string]interface{}{"method": k.Method}
+	if k.P != "" {
+		m["parameters"] = json.RawMessage(k.P)
+	}
 	for _, f := range strings.Split(k.Flags, "+") {
 		if f != "" {
 			m[f] = true
@@ -56,6 +60,18 @@ func refConn(calls []callKind) (frames []interface{}, log []string) {
 			if meth == "GetInfo" {
 				emit(map[string]interface{}{"parameters": map[string]interface{}{"vendor": "vendor", "product": "product", "version": "1", "url": "http://url",
 					"interfaces": []interface{}{"org.varlink.service", "t.a", "t.b"}}})
+			} else if meth == "GetInterfaceDescription" {
+				var in struct {
+					Interface string `json:"interface"`
+				}
+				switch {
+				case k.P == "" || json.Unmarshal([]byte(k.P), &in) != nil:
+					emit(map[string]interface{}{"error": "org.varlink.service.InvalidParameter", "parameters": map[string]interface{}{"parameter": "parameters"}})
+				case in.Interface == "t.a" || in.Interface == "t.b":
+					emit(map[string]interface{}{"parameters": map[string]interface{}{"description": "interface " + in.Interface + "\nmethod R() -> ()\n"}})
+				default:
+					emit(map[string]interface{}{"error": "org.varlink.service.InvalidParameter", "parameters": map[string]interface{}{"parameter": "interface"}})
+				}
 			} else {
 				emit(map[string]interface{}{"error": "org.varlink.service.MethodNotFound", "parameters": map[string]interface{}{"method": meth}})
 			}
@@ -283,10 +299,17 @@ func c01Kinds() []callKind {
 	var ks []callKind
 	for _, f := range c01Flags {
 		for _, s := range c01Scripts {
-			ks = append(ks, callKind{"t.a." + s, f})
+			ks = append(ks, callKind{Method: "t.a." + s, Flags: f})
 		}
 		for _, m := range []string{"u.x.M", "M", "org.varlink.service.GetInfo", "org.varlink.service.Nope"} {
-			ks = append(ks, callKind{m, f})
+			ks = append(ks, callKind{Method: m, Flags: f})
+		}
+		// the built-in description query: registered name, unknown name, parameters absent
+		for _, p := range []string{`{"interface":"t.a"}`, "", `{"interface":"no.such"}`} {
+			if p != "" && p[14] == 'n' && f != "" && f != "oneway" {
+				continue
+			}
+			ks = append(ks, callKind{Method: "org.varlink.service.GetInterfaceDescription", Flags: f, P: p})
 		}
 	}
 	return ks
@@ -310,7 +333,7 @@ func scenariosC01(tier string) []Scen {
 		}
 	}
 	if tier != "quick" {
-		sub := []callKind{{"t.a.R", ""}, {"t.a.CR", "more"}, {"t.a.R", "oneway"}, {"t.a.X", ""}, {"M", ""}, {"t.a.CR", ""}, {"org.varlink.service.GetInfo", "oneway"}, {"t.a.E", "upgrade"}}
+		sub := []callKind{{Method: "t.a.R", Flags: ""}, {Method: "t.a.CR", Flags: "more"}, {Method: "t.a.R", Flags: "oneway"}, {Method: "t.a.X", Flags: ""}, {Method: "M", Flags: ""}, {Method: "t.a.CR", Flags: ""}, {Method: "org.varlink.service.GetInfo", Flags: "oneway"}, {Method: "t.a.E", Flags: "upgrade"}, {Method: "org.varlink.service.GetInterfaceDescription", Flags: "oneway", P: `{"interface":"t.a"}`}}
 		for _, a := range sub {
 			for _, b := range sub {
 				for _, c := range sub {
@@ -348,7 +371,7 @@ func scenariosC01(tier string) []Scen {
 		}
 	}
 	// (b) two and three connections: collision-forcing sub-alphabet (different flags, methods, scripts)
-	sub := []callKind{{"t.a.R", ""}, {"t.b.CCR", "more"}, {"t.a.R", "oneway"}, {"t.a.X", ""}, {"M", ""}, {"t.b.CR", ""}, {"org.varlink.service.GetInfo", ""}, {"u.x.M", "more"}, {"t.a.E", "upgrade"}, {"t.b.RX", "more+oneway"}}
+	sub := []callKind{{Method: "t.a.R", Flags: ""}, {Method: "t.b.CCR", Flags: "more"}, {Method: "t.a.R", Flags: "oneway"}, {Method: "t.a.X", Flags: ""}, {Method: "M", Flags: ""}, {Method: "t.b.CR", Flags: ""}, {Method: "org.varlink.service.GetInfo", Flags: ""}, {Method: "u.x.M", Flags: "more"}, {Method: "t.a.E", Flags: "upgrade"}, {Method: "t.b.RX", Flags: "more+oneway"}}
 	b2 := 2
 	b21 := 1
 	if tier != "quick" {
